@@ -36,6 +36,10 @@ type sendSpec struct {
 	// setDefault: before this send the sender assigns a new default licence to the client (single
 	// sender scenarios only): the frame must carry the hash of the licence in force for that send
 	setDefault string
+	// other: the send goes through a second client object of the same process, connected to a second
+	// collector (two clients alive at once: the writer, the queue and the licence belong to the client,
+	// not to the package)
+	other bool
 }
 
 type scen struct {
@@ -126,6 +130,17 @@ func (s scen) scenario() dfs.Scenario {
 			opts = append(opts, oneway.WithUseQueue())
 		}
 		cl := oneway.VerifNew(opts...)
+		var cl2 *oneway.OneWayTcpClient
+		cancelOther := func() {}
+		for _, specs := range s.threads {
+			for _, sp := range specs {
+				if sp.other && cl2 == nil {
+					ctx2, cancel2 := context.WithCancel(context.Background())
+					cancelOther = cancel2
+					cl2 = oneway.VerifNew(oneway.WithServers([]string{"collector-two:6600"}), oneway.WithLicense(defLicense), oneway.WithPcode(1), oneway.WithContext(ctx2, cancel2), oneway.WithQueueSize(s.qsize))
+				}
+			}
+		}
 		var sends []*sendRec
 		ev := 0
 		producersLeft := len(s.threads)
@@ -158,7 +173,11 @@ func (s scen) scenario() dfs.Scenario {
 					if r.spec.license != "" {
 						opts = append(opts, wnet.WithLicense(r.spec.license))
 					}
-					r.err = cl.Send(mkPack(r.spec), opts...)
+					if r.spec.other {
+						r.err = cl2.Send(mkPack(r.spec), opts...)
+					} else {
+						r.err = cl.Send(mkPack(r.spec), opts...)
+					}
 					r.returned = true
 					r.retEv = ev
 					ev++
@@ -185,6 +204,7 @@ func (s scen) scenario() dfs.Scenario {
 		return func() string {
 			vnet.Use(nil)
 			defer cancel()
+			defer cancelOther()
 			if x.HitStepCap {
 				return "livelock: step cap hit"
 			}
@@ -239,6 +259,9 @@ func (s scen) scenario() dfs.Scenario {
 						}
 						return fmt.Sprintf("foreign: connection %d carries a well-delimited frame that no send produced (pcode/licence/payload mismatch): %x", ci, clip(fr))
 					}
+					if wantAddr := map[bool]string{false: "collector:6600", true: "collector-two:6600"}[match.spec.other]; c.Addr != wantAddr {
+						return fmt.Sprintf("misrouted: the frame of send #%d, handed to the client of %s, arrived on a connection to %s", match.id, wantAddr, c.Addr)
+					}
 					if !match.returned && match.callEv < 0 {
 						return fmt.Sprintf("phantom: frame of send #%d received although Send was never called", match.id)
 					}
@@ -249,6 +272,9 @@ func (s scen) scenario() dfs.Scenario {
 			// order: if a returned before b was called, a's frame must not come after b's
 			for i, a := range delivered {
 				for _, b := range delivered[i+1:] {
+					if a.send.spec.other != b.send.spec.other {
+						continue // two clients, two collectors: no order between their connections
+					}
 					if b.send.retEv >= 0 && a.send.callEv >= 0 && b.send.retEv < a.send.callEv {
 						return fmt.Sprintf("order: send #%d returned before send #%d was called, but its frame arrived later", b.send.id, a.send.id)
 					}
@@ -348,6 +374,14 @@ func scenarios(thorough bool) []scen {
 		scen{name: "healthy/direct/relicense", threads: [][]sendSpec{{a, a2, b, a3}}},
 		scen{name: "faulty/direct/relicense", threads: [][]sendSpec{{a, a2, a3}}, dialFail: true, cutAll: true, deadline: true},
 		scen{name: "healthy/direct/relicense-first", threads: [][]sendSpec{{a2, a3}}},
+	)
+	// two client objects alive in one process: A sends, B (second collector) sends, A sends again
+	ob := sendSpec{pcode: 77, text: "via-the-second-client", other: true}
+	ob2 := sendSpec{pcode: 78, text: "via-the-second-client-again", other: true}
+	out = append(out,
+		scen{name: "healthy/direct/two-clients", threads: [][]sendSpec{{a, ob, c, ob2, d}}},
+		scen{name: "healthy/direct/two-clients-two-threads", threads: [][]sendSpec{{a, c}, {ob, ob2}}},
+		scen{name: "faulty/direct/two-clients", threads: [][]sendSpec{{a, ob, c}}, dialFail: true, cutAll: true, deadline: true},
 	)
 	return out
 }
